@@ -122,6 +122,29 @@ for _i, _t in ROUND2.items():
 _c = CLAIMED["C01"]
 CLAIMED["C01"] = (_c[0], _c[1], _c[2], "trusts the simnet stream/message Read contracts as models of TCP/QUIC/KCP (WebSocket additionally runs on the real gorilla stack); 16 MiB bodies are rare in the quick tier (a twelfth of the largest size class) and more frequent in thorough", _c[4])
 
+
+ROUND3 = {
+ "C02": "Third round: an end whose transport dies with a permanent, non-temporary time-out error (QUIC idle timeout), and reads that return (0, nil) sprinkled through the transfer by the hundred.",
+ "C03": "Third round: a node restart on the same storage (connections gone, client records and permanent blacklist entries survive).",
+ "C04": "Third round: requests arriving 7 ms to 2.3 s after a mapping's ExpiresAt on both validation paths, a canary open right after every revoke/deactivate/delete/expiry, and two tenants' source opens carrying the same fresh tunnel id concurrently.",
+ "C05": "Third round: a work budget on every connection (bytes moved in bulk by repository code, counted by the instrumenter, must stay linear in the transport bytes) and a cost probe that decodes the same dense shape at n and 8n bytes.",
+ "C07": "Third round: TunnelOpen on a (control) connection with an approve-all tunnel handler (the server takes the connection out of the control registry; no lookup may return it after it closes).",
+ "C09": "Third round: waiting periods with fractional seconds and lookups aimed at the last fraction of a record's period (and just after it) on every backend.",
+ "C10": "Third round: a pooled connection reused by a second tunnel behind the first stream's frames (second consumer: FrameStream or raw ReadFrame), and the real listener handleConnection/handleTargetReady/runBridgeForward path with a real bridge on loopback, idle for 3.5 or 6 s of real time in at most three runs per worker.",
+ "C11": "Third round: twin requests (same command, same object, different identities) overlapping inside one storage read, and transports that re-handshake as another registered client before sending further commands.",
+ "C13": "Third round: hash operations (with lifetimes) in the Redis differential, attributed through the Redis-flavoured reference, and a third of the concurrent-linearizability runs on the Redis backend (scalar and counter keys).",
+ "C15": "Third round: replies lost after the store processed a claim (including a claim on an occupied slot) and requests lost before it, slow claim answers of 3-7 s.",
+ "C16": "Third round: every join of closers is bounded in simulated time (a Close that never returns is a violation), and a seventh component: the real client BaseMappingHandler with notifications racing tunnel start-up.",
+ "C20": "Third round: sequences of 2-12 datagrams to related destination groups (same DST.ADDR bytes under two address types, prefixes, byte-swapped ports, edge lengths) parsed on ONE relay object and compared with a fresh relay.",
+}
+for _i, _t in ROUND3.items():
+    c = CLAIMED[_i]
+    CLAIMED[_i] = (c[0], c[1], c[2] + " " + _t, c[3], c[4])
+_c = CLAIMED["C20"]
+CLAIMED["C20"] = (_c[0], _c[1], _c[2], "the single-datagram UDP header differential is a pure function of its input (reported as pure_input_runs); the claim rests on the negotiation half and on the datagram-sequence and relay worlds", _c[4])
+_c = CLAIMED["C10"]
+CLAIMED["C10"] = (_c[0], _c[1], _c[2], _c[3] + "; the loopback half uses real seconds for its two long-idle cases (the only real-time waits in the harness)", _c[4])
+
 props=[json.loads(l) for l in open('/verif/properties.jsonl')]
 checks=[]
 na=[]
